@@ -24,14 +24,14 @@ def families(tier):
         if u:
             fams.append(sched.run_family("C03", name, topo, u, **kw))
 
-    add("ab", D["ab"], 4, 7)
+    add("ab", D["ab"], 4, 7, vary_connect=True)
     add("ba_listed", D["ba_listed"], 4, 6)
     add("ab_scale_linear", D["ab_scale_linear"], 4, 6)
     add("ab_avg", D["ab_avg"], 0, 6)
     add("ab_dfix", D["ab_dfix"], 0, 6)
     add("ab_dpull", D["ab_dpull"], 0, 6)
     add("ab_vary", D["ab_vary"], 4, 6)
-    add("a_p_b", D["a_p_b"], 4, 6)
+    add("a_p_b", D["a_p_b"], 4, 6, vary_connect=True)
     add("abc", D["abc"], 3, 5)
     add("cba_listed", D["cba_listed"], 0, 5)
     add("fan_in", D["fan_in"], 0, 5)
